@@ -140,8 +140,11 @@ def run(ctx):
     # Xfrm.create_child_sa installs exactly one pair
     cc = ctx.func('xfrm.Xfrm.create_child_sa')
     gc = esc.add_exception_edges(cc)
-    cs = kernel_calls(ctx, cc, gc, 'create_sa')
-    ctx.check(len(cs) == 2, 'P1', 'Xfrm.create_child_sa installs exactly two kernel SAs (%d create_sa calls)' % len(cs),
+    from .. import tq as _tq
+    from ..sval import strip_ids as _sid, NONE as _NONE
+    CC = ctx.sval(cc)
+    cs = CC.calls_to(qual='xfrm.Xfrm.create_sa')        # by value terms: two calls, or one call in a loop over the two directions
+    ctx.check(len(cs) == 2 and all(not c.pc for c in cs), 'P1', 'Xfrm.create_child_sa installs exactly two kernel SAs (%d create_sa calls)' % len(cs),
               key=('P1', 'create_sa-count', len(cs)), site=ctx.site(cc, cc.node))
 
     # ---------------------------------------------------------------- P2
@@ -183,9 +186,8 @@ def run(ctx):
         b = bind_args(x, dsa)
         pairs_del.add((src(b['daddr']).split('.')[-1], src(b['spi']).split('.')[-1]))
     pairs_ins = set()
-    for n, x in cs:
-        b = bind_args(x, csa)
-        pairs_ins.add((src(b['dst']).split('.')[-1], src(b['spi']).split('.')[-1]))
+    for c in cs:
+        pairs_ins.add((_tq.text(_sid(c.args.get('dst', _NONE))).split('.')[-1], _tq.text(_sid(c.args.get('spi', _NONE))).split('.')[-1]))
     want = {('peer_addr', 'outbound_spi'), ('my_addr', 'inbound_spi')}
     ctx.check(pairs_del == want, 'P2', 'delete_child_sa deletes (peer_addr, outbound_spi) and (my_addr, inbound_spi): %s'
               % sorted(pairs_del), key=('P2', 'delete-orientation'), site=ctx.site(dc, dc.node))
